@@ -131,7 +131,7 @@ def XInvR (hack : Bool) (f0 : Flow) (r : AReq) (wr0 : BodyWriter) (P : Bytes) (F
 
 theorem x_step_invR (hack : Bool) (f0 : Flow) (r : AReq) (wr0 : BodyWriter) (P : Bytes) (F : Head) (b0 : BPos) (tail : Bytes)
     (X : XSetupR hack f0 r wr0 P F b0) (htail : b0.isClose = true → tail = []) (x : Flow × SendObs × RecvObs) (s : IoStep)
-    (h : XInvR hack f0 r wr0 P F b0 tail x) :
+    (h : XInvR hack f0 r wr0 P F b0 tail x) (hsw : F.safeWin hack s.m) :
     XInvR hack f0 r wr0 P F b0 tail (xStep hack P (F.enc ++ b0.enc ++ tail) x s) := by
   obtain ⟨f, so, o⟩ := x
   have enter : ∀ (g : Flow) (go : SendObs), SendD f0 r wr0 P g go →
@@ -225,19 +225,23 @@ theorem x_step_invR (hack : Bool) (f0 : Flow) (r : AReq) (wr0 : BodyWriter) (P :
       · rw [recvStep_done hack _ (f, o) s (by simp [recvDone, e])]; exact ⟨rfl, rfl⟩
       · rw [recvStep_done hack _ (f, o) s (by simp [recvDone, e])]; exact ⟨rfl, rfl⟩
     rw [hx]
-    exact Or.inr (Or.inr (Or.inr (Or.inr ⟨hw, f1, S, recv_step_inv hack F b0 tail f1 S f o s hri⟩)))
+    exact Or.inr (Or.inr (Or.inr (Or.inr ⟨hw, f1, S, recv_step_inv hack F b0 tail f1 S f o s hri hsw⟩)))
 
 theorem x_run_invR (hack : Bool) (f0 : Flow) (r : AReq) (wr0 : BodyWriter) (P : Bytes) (F : Head) (b0 : BPos) (tail : Bytes)
-    (X : XSetupR hack f0 r wr0 P F b0) (htail : b0.isClose = true → tail = []) (σ : List IoStep) :
+    (X : XSetupR hack f0 r wr0 P F b0) (htail : b0.isClose = true → tail = []) (σ : List IoStep)
+    (hσ : ∀ s ∈ σ, F.safeWin hack s.m) :
     XInvR hack f0 r wr0 P F b0 tail (xRun hack P (F.enc ++ b0.enc ++ tail) f0 σ) := by
   unfold xRun
-  have gen : ∀ (σ : List IoStep) (x : Flow × SendObs × RecvObs), XInvR hack f0 r wr0 P F b0 tail x →
+  have gen : ∀ (σ : List IoStep), (∀ s ∈ σ, F.safeWin hack s.m) → ∀ (x : Flow × SendObs × RecvObs), XInvR hack f0 r wr0 P F b0 tail x →
       XInvR hack f0 r wr0 P F b0 tail (σ.foldl (xStep hack P (F.enc ++ b0.enc ++ tail)) x) := by
     intro σ
     induction σ with
-    | nil => intro x hx; exact hx
-    | cons s rest ih => intro x hx; rw [List.foldl_cons]; exact ih _ (x_step_invR hack f0 r wr0 P F b0 tail X htail x s hx)
-  exact gen σ _ (Or.inl ⟨Or.inl ⟨rfl, rfl⟩, rfl⟩)
+    | nil => intro _ x hx; exact hx
+    | cons s rest ih =>
+      intro hσ x hx
+      rw [List.foldl_cons]
+      exact ih (fun t ht => hσ t (by simp [ht])) _ (x_step_invR hack f0 r wr0 P F b0 tail X htail x s hx (hσ s (by simp)))
+  exact gen σ hσ _ (Or.inl ⟨Or.inl ⟨rfl, rfl⟩, rfl⟩)
 
 /-- **C01 (refused Expect, outcome).** The request carries `Expect: 100-continue` and a body; the server
     answers with a final response (any status but 100) and no interim one. Every complete schedule consumes
@@ -247,6 +251,7 @@ theorem x_run_invR (hack : Bool) (f0 : Flow) (r : AReq) (wr0 : BodyWriter) (P : 
     with nothing of the payload accepted (the response was seen first: `try_read_100` refused). -/
 theorem C01_refused_outcome (hack : Bool) (f0 : Flow) (r : AReq) (wr0 : BodyWriter) (P : Bytes) (F : Head) (b0 : BPos) (tail : Bytes)
     (X : XSetupR hack f0 r wr0 P F b0) (htail : b0.isClose = true → tail = []) (σ : List IoStep)
+    (hσ : ∀ s ∈ σ, F.safeWin hack s.m)
     (hd : recvDone (xRun hack P (F.enc ++ b0.enc ++ tail) f0 σ).1 = true) :
     (xRun hack P (F.enc ++ b0.enc ++ tail) f0 σ).2.2 = recvSpec F b0 ∧
     (xRun hack P (F.enc ++ b0.enc ++ tail) f0 σ).1.st = terminalSt F ∧
@@ -255,7 +260,7 @@ theorem C01_refused_outcome (hack : Bool) (f0 : Flow) (r : AReq) (wr0 : BodyWrit
         (xRun hack P (F.enc ++ b0.enc ++ tail) f0 σ).2.1.off = P.length) ∨
      ((xRun hack P (F.enc ++ b0.enc ++ tail) f0 σ).2.1.wire = renderHead r ∧
         (xRun hack P (F.enc ++ b0.enc ++ tail) f0 σ).2.1.off = 0)) := by
-  rcases x_run_invR hack f0 r wr0 P F b0 tail X htail σ with ⟨hAB, _⟩ | ⟨hst, _⟩ | ⟨hR, _⟩ | ⟨hC, _⟩ | ⟨hw, f1, S, hri⟩
+  rcases x_run_invR hack f0 r wr0 P F b0 tail X htail σ hσ with ⟨hAB, _⟩ | ⟨hst, _⟩ | ⟨hR, _⟩ | ⟨hC, _⟩ | ⟨hw, f1, S, hri⟩
   · have hst : (xRun hack P (F.enc ++ b0.enc ++ tail) f0 σ).1.st = .prepare ∨
         (xRun hack P (F.enc ++ b0.enc ++ tail) f0 σ).1.st = .sendRequest := by
       rcases hAB with ⟨h, _⟩ | hB
@@ -275,10 +280,11 @@ theorem C01_refused_outcome (hack : Bool) (f0 : Flow) (r : AReq) (wr0 : BodyWrit
     in the same state; they can differ only in whether the body went out. -/
 theorem C01_refused_independent (hack : Bool) (f0 : Flow) (r : AReq) (wr0 : BodyWriter) (P : Bytes) (F : Head) (b0 : BPos) (tail : Bytes)
     (X : XSetupR hack f0 r wr0 P F b0) (htail : b0.isClose = true → tail = []) (σ₁ σ₂ : List IoStep)
+    (hσ₁ : ∀ s ∈ σ₁, F.safeWin hack s.m) (hσ₂ : ∀ s ∈ σ₂, F.safeWin hack s.m)
     (h1 : recvDone (xRun hack P (F.enc ++ b0.enc ++ tail) f0 σ₁).1 = true)
     (h2 : recvDone (xRun hack P (F.enc ++ b0.enc ++ tail) f0 σ₂).1 = true) :
     (xRun hack P (F.enc ++ b0.enc ++ tail) f0 σ₁).2.2 = (xRun hack P (F.enc ++ b0.enc ++ tail) f0 σ₂).2.2 ∧
     (xRun hack P (F.enc ++ b0.enc ++ tail) f0 σ₁).1.st = (xRun hack P (F.enc ++ b0.enc ++ tail) f0 σ₂).1.st := by
-  obtain ⟨a1, a2, _⟩ := C01_refused_outcome hack f0 r wr0 P F b0 tail X htail σ₁ h1
-  obtain ⟨b1, b2, _⟩ := C01_refused_outcome hack f0 r wr0 P F b0 tail X htail σ₂ h2
+  obtain ⟨a1, a2, _⟩ := C01_refused_outcome hack f0 r wr0 P F b0 tail X htail σ₁ hσ₁ h1
+  obtain ⟨b1, b2, _⟩ := C01_refused_outcome hack f0 r wr0 P F b0 tail X htail σ₂ hσ₂ h2
   exact ⟨by rw [a1, b1], by rw [a2, b2]⟩
